@@ -24,7 +24,8 @@ PROPERTY = {
                    "candidate undecodable / of another length / decoding to another instruction). Bounded: exploration, not proof.",
     "rule": "one case = one architecture / mode, one chunk of 100 byte strings and one group of failure classes (the classes of one known finding of that architecture, or every other class)",
     "trusted_base": ["CPython executes the real decoders and assemblers; the sampling and the comparison are written in props/C15.py"],
-    "assumptions": ["seeded family: 14 architectures / modes x 20 chunks x 100 strings quick (x 200 chunks thorough)",
+    "assumptions": ["seeded family: 14 architectures / modes x 20 chunks quick (x 200 chunks thorough) x (100 random strings + the boundary variants of 5 of them: last 1 / 2 / 4 / 8 bytes replaced by 0, 1 and the signed / unsigned limits of every narrower width, both byte orders)",
+                    "curated family: every vector of test/arch/{x86,arm,aarch64,mips32,ppc32,msp430}/arch.py (read with ast) and all its boundary variants (quick: every sixth group of 10 vectors)",
                     "an instruction the decoder refuses is not a case"],
 }
 
@@ -56,7 +57,7 @@ def check_one(name, attrib, data, addr):
         return None
     if ins is None:
         return None
-    fam, base = family(name), base_mnemo(name, ins.name)
+    fam, base = family(name), base_mnemo(name, ins)
     what = "%s `%s` (%s) at %#x" % (name, ins, data[:ins.l].hex(), addr)
     try:
         cands = mn.asm(ins, LocationDB())
@@ -84,16 +85,100 @@ def check_one(name, attrib, data, addr):
 _CHUNK = {}
 
 
+def boundary_variants(data, l):
+    """the instruction's bytes with its last 1 / 2 / 4 / 8 bytes (where an immediate or displacement usually sits) replaced by
+    boundary values of every narrower width, in both byte orders"""
+    out = []
+    seen = set()
+    for s in (1, 2, 4, 8):
+        if s >= l:
+            break
+        vals = {0, 1}
+        for w in (1, 2, 4, 8):
+            if w <= s:
+                vals |= {(1 << (8 * w - 1)) - 1, 1 << (8 * w - 1), (1 << (8 * w)) - 1}
+        for v in sorted(vals):
+            for order in ("little", "big"):
+                b = data[:l - s] + v.to_bytes(s, order) + data[l:]
+                if b not in seen and b[:l] != data[:l]:
+                    seen.add(b)
+                    out.append(b)
+    return out
+
+
+_CURATED = {}
+CUR_FILES = {"x86": ("x86_16", "x86_32", "x86_64"), "arm": ("arml", "armtl"), "aarch64": ("aarch64l",), "mips32": ("mips32l", "mips32b"),
+             "ppc32": ("ppc32b",), "msp430": ("msp430",)}
+
+
+def curated(name):
+    """the byte strings of the curated vectors of test/arch/<arch>/arch.py (read from the source with ast, not executed): for x86
+    the vectors of the mode, elsewhere every vector of the architecture's file"""
+    if not _CURATED:
+        import ast
+        import os
+        import miasm
+        root = os.path.join(os.path.dirname(os.path.dirname(os.path.abspath(miasm.__file__))), "test", "arch")
+        for d, names in CUR_FILES.items():
+            for n in names:
+                _CURATED[n] = []
+            try:
+                tree = ast.parse(open(os.path.join(root, d, "arch.py")).read())
+            except Exception:       # noqa
+                continue
+            for node in ast.walk(tree):
+                if not isinstance(node, ast.Tuple) or len(node.elts) not in (2, 3):
+                    continue
+                last = node.elts[-1]
+                if not (isinstance(last, ast.Constant) and isinstance(last.value, str) and re.fullmatch(r"([0-9a-fA-F]{2})+", last.value)):
+                    continue
+                if not (isinstance(node.elts[-2], ast.Constant) and isinstance(node.elts[-2].value, str)):
+                    continue
+                b = bytes.fromhex(last.value)
+                if d == "x86":
+                    if len(node.elts) == 3 and isinstance(node.elts[0], ast.Name) and node.elts[0].id in ("m16", "m32", "m64"):
+                        _CURATED["x86_" + node.elts[0].id[1:]].append(b)
+                else:
+                    for n in names:
+                        _CURATED[n].append(b)
+    return _CURATED.get(name, [])
+
+
+CUR_CHUNK = 10
+
+
 def run_chunk(a, k):
+    """-> (number of decoded instructions, [(tag, text)]).  k = int: 100 random strings, and for the first 5 decodable ones their
+    boundary variants; k = ('cur', j): the curated vectors 10j .. 10j+9 of the architecture and all their boundary variants"""
     if (a, k) not in _CHUNK:
+        from miasm.core.bin_stream import bin_stream_str
         name, attrib = ARCHS[a]
-        rng = random.Random(1500 + 1000 * a + k)
+        mn = machine(name).mn
         fails = []
         n = 0
-        for _ in range(100):
-            data = bytes(rng.getrandbits(8) for _ in range(16))
-            addr = rng.choice((0, 0x1000, 0x401000, 0x80001000))
-            why = check_one(name, attrib, data, addr)
+        todo = []
+        if isinstance(k, tuple):
+            for b in curated(name)[CUR_CHUNK * k[1]:CUR_CHUNK * (k[1] + 1)]:
+                for addr in (0x1000,):
+                    data = b + bytes(16 - len(b)) if len(b) < 16 else b
+                    todo.append((data, addr))
+                    todo += [(v, addr) for v in boundary_variants(data, len(b))]
+        else:
+            rng = random.Random(1500 + 1000 * a + k)
+            nvar = 0
+            for _ in range(100):
+                data = bytes(rng.getrandbits(8) for _ in range(16))
+                addr = rng.choice((0, 0x1000, 0x401000, 0x80001000))
+                todo.append((data, addr))
+                if nvar < 5:
+                    try:
+                        ins = mn.dis(bin_stream_str(data, base_address=addr), attrib, addr)
+                        todo += [(v, addr) for v in boundary_variants(data, ins.l)]
+                        nvar += 1
+                    except Exception:       # noqa
+                        pass
+        for d, addr in todo:
+            why = check_one(name, attrib, d, addr)
             if why is None:
                 continue
             n += 1
@@ -118,11 +203,14 @@ class AsmCases(BoundedContract):
         for a in range(len(ARCHS)):
             fam = family(ARCHS[a][0])
             gids = sorted(g for g, (f, _) in known_groups("C15").items() if f == fam) + [""]
-            out += [(a, k, g) for k in range(n) for g in gids]
+            ncur = (len(curated(ARCHS[a][0])) + CUR_CHUNK - 1) // CUR_CHUNK
+            ks = list(range(n)) + [("cur", j) for j in range(ncur) if self.tier != "quick" or j % 6 == 0]
+            out += [(a, k, g) for k in ks for g in gids]
         return out
 
     def show(self, case):
-        return "%s chunk %d%s" % (ARCHS[case[0]][0], case[1], " (classes of %s)" % case[2] if case[2] else " (every other class)")
+        return "%s %s%s" % (ARCHS[case[0]][0], "chunk %d" % case[1] if isinstance(case[1], int) else "curated vectors %d..%d and their boundary variants" % (
+            CUR_CHUNK * case[1][1], CUR_CHUNK * case[1][1] + CUR_CHUNK - 1), " (classes of %s)" % case[2] if case[2] else " (every other class)")
 
     def check(self, case):
         a, k, g = case
